@@ -5,6 +5,7 @@ from sa.dataflow import Poly, cmp_key, cmp_atoms, cmp_strip_nan
 from sa.degree import DegreeAnalysis, DegError
 from sa.resolve import walk_function
 
+TECHNIQUE = 'static analysis (ast): homogeneity-degree (scale) analysis of every listed metric over a frozen pandas / numpy transfer table, value-id comparison of ratio formulas, guard rules of validate / level, registration (shadowing) rule over the metric holder classes'
 EXPLANATION = (
     "Decides, for tradingenv/metrics.py: (S1) scale invariance as a proof relative to a frozen transfer table of pandas/numpy operations: every listed metric "
     "has homogeneity degree 0 in the level series (degree analysis with interprocedural summaries; level itself has degree 1, log-levels are scale-free only "
